@@ -397,28 +397,110 @@ example :
 
 /-! ## Part 2: guard table -/
 
-/-- **authority_guard_table**: every registered custom-module message with an `Authority` field is
-    compared with the keeper authority before any write (regenerated table). -/
+/-- **authority_guard_table** (load-bearing table fact, decided on the regenerated table): every routed
+    custom-module message that is governance-only BY DECLARATION — it has an `Authority` field, or
+    its `cosmos.msg.v1.signer` option names a field called authority whatever the Go field is
+    called, or it is declared in a governance service (a gRPC service other than `Msg`, e.g.
+    `ProposalMsg`) — is compared with the keeper authority by its handler, and before any write. -/
 theorem authority_guard_table :
-    ∀ e ∈ Gen.Guards.entries, e.hasAuthorityField = true → e.guard = .authority ∧ e.guardFirst = true := by
+    ∀ e ∈ Gen.Guards.entries, (e.hasAuthorityField = true ∨ e.govOnly = true) →
+      e.guard = .authority ∧ e.guardFirst = true := by
   decide
 
-/-- every owner-only message named by the property compares its signer with the stored owner (or
-    addresses the signer's own object) before any write -/
+/-- … and conversely no handler compares its signer with the keeper authority without being declared
+    governance-only (the two notions coincide on today's tree) -/
+theorem authority_guard_converse :
+    ∀ e ∈ Gen.Guards.entries, e.guard = .authority → e.govOnly = true := by
+  decide
+
+/-- **owner_guard_table** (load-bearing only in its second half): `ownerOnly` is DERIVED by the extractor
+    from the handler (a comparison of the signer with a stored non-authority value, or a lookup keyed
+    by the signer alone), so "`ownerOnly` → guard is `.owner` or `.self`" restates the derivation; the
+    fact with content is `guardFirst`: in none of these handlers does a store write or bank call precede
+    the comparison.  Which messages are in the class is pinned by `owner_rows_exact` /
+    `unguarded_rows_exact` below. -/
 theorem owner_guard_table :
     ∀ e ∈ Gen.Guards.entries, e.ownerOnly = true →
       (e.guard = .owner ∨ e.guard = .self) ∧ e.guardFirst = true := by
   decide
 
-/-- the table is not empty of what it speaks about (non-vacuity) -/
-theorem guard_table_nonvacuous :
-    (Gen.Guards.entries.filter (·.hasAuthorityField)).length ≥ 7 ∧
-    (Gen.Guards.entries.filter (·.ownerOnly)).length ≥ 25 ∧
-    (Gen.Guards.entries.filter (fun e => e.guard = .govRouted)).length ≥ 7 := by
+/-- the names of the rows with a given guard -/
+def rowsWith (g : Guard) : List String :=
+  (Gen.Guards.table.filter (fun r => r.2.guard = g)).map (·.1)
+
+/-- **guard_table_covers_every_rpc**: the table has exactly one Msg row per rpc method of the gRPC
+    service descriptors (`_Msg_serviceDesc`, `_ProposalMsg_serviceDesc`, … counted by an independent
+    scan of the generated `.pb.go` files): no routed custom-module message is missing from it. -/
+theorem guard_table_covers_every_rpc :
+    (Gen.Guards.entries.filter (·.isMsg)).length = (Gen.Guards.rpcMethods.map (·.2)).sum ∧
+    (Gen.Guards.rpcMethods.map (·.2)).sum = 62 := by
   decide
 
-/-- governance-only: for every state and every signer other than the authority, a message whose
-    table row is authority-guarded (or governance-routed) is rejected and nothing changes -/
+/-- **guard_table_exact_counts** (replaces the former `≥` counts): the number of rows of every class.
+    A guard that disappears from a handler, a new message, a message that loses its `Authority`
+    field: each changes one of these numbers and this theorem stops checking. -/
+theorem guard_table_exact_counts :
+    Gen.Guards.entries.length = 78 ∧
+    (Gen.Guards.entries.filter (·.hasAuthorityField)).length = 7 ∧
+    (Gen.Guards.entries.filter (·.govOnly)).length = 7 ∧
+    (Gen.Guards.entries.filter (·.ownerOnly)).length = 34 ∧
+    (rowsWith .authority).length = 7 ∧ (rowsWith .owner).length = 25 ∧ (rowsWith .self).length = 10 ∧
+    (rowsWith .govRouted).length = 16 ∧ (rowsWith .none).length = 20 := by
+  decide
+
+/-- **unguarded_rows_exact**: the routed custom-module messages in whose handler the extractor finds NO
+    signer comparison are exactly these twenty, each reviewed against the property text: they create
+    a new object for the signer, spend the signer's own funds, or are open to anybody by design
+    (finalizing a packet, fulfilling an order, relaying a client update).  `eibc.MsgFulfillOrderAuthorized`
+    (signer = the LP address whose own funds are sent) and `sponsorship.MsgClaimRewards` (keyed by the
+    claimer: `CanClaim(claimer)`) touch only what belongs to the signer.  A new message without a
+    guard, or a guard removed from a handler, changes this list. -/
+theorem unguarded_rows_exact :
+    rowsWith .none =
+      ["delayedack.MsgFinalizePacket", "delayedack.MsgFinalizePacketByPacketKey", "dymns.MsgRegisterName",
+       "dymns.MsgPurchaseOrder", "eibc.MsgTryFulfillOnDemand", "eibc.MsgFulfillOrder",
+       "eibc.MsgFulfillOrderAuthorized", "eibc.MsgCreateOnDemandLP", "incentives.MsgCreateGauge",
+       "incentives.MsgAddToGauge", "iro.MsgBuy", "iro.MsgBuyExactSpend", "iro.MsgSell", "iro.MsgClaim",
+       "lightclient.MsgSetCanonicalClient", "lightclient.MsgUpdateClient", "lockup.MsgLockTokens",
+       "rollapp.MsgCreateRollapp", "sponsorship.MsgVote", "sponsorship.MsgClaimRewards"] := by
+  decide
+
+/-- **owner_rows_exact**: the messages whose handler compares the signer with the stored owner /
+    creator / buyer / controller / proposer of the targeted object (`.owner`), or addresses the
+    signer's own object (`.self`) — derived, then pinned here.  Against the former fixed list this
+    adds `rollapp.MsgUpdateState` (proposer only; the comparison sits in x/sequencer's
+    `BeforeUpdateState` hook), `dymns.MsgPlaceBuyOrder` (continuing an order: its buyer),
+    `dymns.MsgCompleteSellOrder`, `iro.MsgCreatePlan` (rollapp owner), `sequencer.MsgKickProposer`,
+    `sponsorship.MsgRevokeVote` (the voter's own vote). -/
+theorem owner_rows_exact :
+    rowsWith .owner =
+      ["dymns.MsgRegisterAlias", "dymns.MsgTransferDymNameOwnership", "dymns.MsgSetController",
+       "dymns.MsgUpdateResolveAddress", "dymns.MsgUpdateDetails", "dymns.MsgPlaceSellOrder",
+       "dymns.MsgCancelSellOrder", "dymns.MsgCompleteSellOrder", "dymns.MsgPlaceBuyOrder",
+       "dymns.MsgCancelBuyOrder", "dymns.MsgAcceptBuyOrder", "eibc.MsgUpdateDemandOrder",
+       "eibc.MsgDeleteOnDemandLP", "iro.MsgCreatePlan", "iro.MsgEnableTrading", "iro.MsgClaimVested",
+       "lockup.MsgBeginUnlocking", "lockup.MsgExtendLockup", "lockup.MsgForceUnlock",
+       "rollapp.MsgUpdateRollappInformation", "rollapp.MsgUpdateState", "rollapp.MsgTransferOwnership",
+       "rollapp.MsgAddApp", "rollapp.MsgUpdateApp", "rollapp.MsgRemoveApp"] ∧
+    rowsWith .self =
+      ["sequencer.MsgCreateSequencer", "sequencer.MsgUpdateSequencerInformation",
+       "sequencer.MsgUpdateRewardAddress", "sequencer.MsgUpdateWhitelistedRelayers",
+       "sequencer.MsgUpdateOptInStatus", "sequencer.MsgKickProposer", "sequencer.MsgUnbond",
+       "sequencer.MsgIncreaseBond", "sequencer.MsgDecreaseBond", "sponsorship.MsgRevokeVote"] := by
+  decide
+
+/-- every guard found is found before the first write (all classes at once) -/
+theorem every_guard_is_first :
+    ∀ e ∈ Gen.Guards.entries, e.guard ≠ .none → e.guardFirst = true := by
+  decide
+
+/-- governance-only, model level.  NOTE: this restates the definition of `passes` / `gstep` for the
+    `.authority` / `.govRouted` kinds (a two-line unfolding); it carries no fact about the Go code by
+    itself.  The facts about the code are the table theorems above (`authority_guard_table`,
+    `guard_table_covers_every_rpc`, `guard_table_exact_counts`, `every_guard_is_first`) and the
+    differential runs (the driver executes `gstep` on the regenerated rows against the real handlers).
+    Statement: for every state and every signer other than the authority, a message whose table row
+    is authority-guarded (or governance-routed) is rejected and nothing changes -/
 theorem non_authority_rejected (s : Owners) (a : Attempt)
     (hg : a.entry.guard = .authority ∨ a.entry.guard = .govRouted) (hs : a.signer ≠ .authority) :
     gstep s a = (s, false) := by
@@ -427,13 +509,18 @@ theorem non_authority_rejected (s : Owners) (a : Attempt)
   | inl h => simp [passes, h, hs]
   | inr h => simp [passes, h, hs]
 
-/-- … in particular for every row of the regenerated table that carries an Authority field -/
+/-- … in particular for every row of the regenerated table that is governance-only by declaration
+    (this is where `authority_guard_table` is used: the load-bearing step) -/
 theorem authority_messages_unreachable (s : Owners) (a : Attempt)
-    (he : a.entry ∈ Gen.Guards.entries) (hf : a.entry.hasAuthorityField = true)
+    (he : a.entry ∈ Gen.Guards.entries) (hf : a.entry.hasAuthorityField = true ∨ a.entry.govOnly = true)
     (hs : a.signer ≠ .authority) : gstep s a = (s, false) :=
   non_authority_rejected s a (.inl (authority_guard_table a.entry he hf).1) hs
 
-/-- owner-only: whoever is not the current owner of the targeted object is rejected, nothing changes -/
+/-- owner-only, model level.  NOTE: given `owner_guard_table` (whose first half restates how
+    `ownerOnly` is derived) this unfolds `passes` / `gstep` for the `.owner` / `.self` kinds; the facts
+    about the Go code are `owner_rows_exact`, `unguarded_rows_exact`, `every_guard_is_first` and the
+    differential runs.  Statement: whoever is not the current owner of the targeted object is
+    rejected, nothing changes -/
 theorem non_owner_rejected (s : Owners) (a : Attempt)
     (he : a.entry ∈ Gen.Guards.entries) (ho : a.entry.ownerOnly = true)
     (hs : ∀ x, a.signer = .actor x → ownerOf s a.obj ≠ some x) : gstep s a = (s, false) := by
@@ -464,7 +551,8 @@ theorem non_owner_rejected (s : Owners) (a : Attempt)
         simp only [decide_eq_false_iff_not]
         intro e; exact hx (by rw [ho', e])
 
-/-- an accepted owner-only message was signed by the current owner of its object -/
+/-- contrapositive of `non_owner_rejected` (same caveat: a restatement of `passes`): an accepted
+    owner-only message was signed by the current owner of its object -/
 theorem accepted_owner_only_signed_by_owner (s : Owners) (a : Attempt)
     (he : a.entry ∈ Gen.Guards.entries) (ho : a.entry.ownerOnly = true)
     (hacc : (gstep s a).2 = true) : ∃ x, a.signer = .actor x ∧ ownerOf s a.obj = some x := by
@@ -494,9 +582,14 @@ def outsider (ins : List Nat) (sg : Signer) : Prop :=
 
 /-- a row of the table that the property calls privileged -/
 def privilegedRow (e : GuardEntry) : Prop :=
-  e ∈ Gen.Guards.entries ∧ (e.hasAuthorityField = true ∨ e.ownerOnly = true ∨ e.guard = .govRouted)
+  e ∈ Gen.Guards.entries ∧
+    ((e.hasAuthorityField = true ∨ e.govOnly = true) ∨ e.ownerOnly = true ∨ e.guard = .govRouted)
 
-/-- **outsiders_change_nothing** (all op sequences): if every object is owned by an insider, then no
+/-- **outsiders_change_nothing** (all op sequences).  The induction over op lists is the content on the
+    model side; per step it uses only the restatements above, so its tie to the Go code is again
+    the table theorems (`authority_guard_table`, `owner_rows_exact`, `unguarded_rows_exact`,
+    `guard_table_exact_counts`, `every_guard_is_first`) plus the differential runs.
+    Statement: if every object is owned by an insider, then no
     sequence of privileged messages signed by outsiders — however long, in whatever order, with
     whatever contents — changes any owner; every single one is rejected. -/
 theorem outsiders_change_nothing (ins : List Nat) :
@@ -525,7 +618,7 @@ theorem outsiders_change_nothing (ins : List Nat) :
 
 /-- non-vacuity of the M-Guards statements: the owner passes, a stranger does not, ownership moves -/
 example :
-    let e : GuardEntry := { id := 0, hasAuthorityField := false, ownerOnly := true, guard := .owner, guardFirst := true }
+    let e : GuardEntry := { id := 0, isMsg := true, hasAuthorityField := false, govOnly := false, ownerOnly := true, guard := .owner, guardFirst := true }
     gstep [(0, 1)] { entry := e, obj := 0, signer := .actor 1, valid := true, newOwners := [(0, 2)] } = ([(0, 2)], true) ∧
     gstep [(0, 1)] { entry := e, obj := 0, signer := .actor 2, valid := true, newOwners := [(0, 2)] } = ([(0, 1)], false) ∧
     gstep [(0, 2)] { entry := e, obj := 0, signer := .actor 1, valid := true, newOwners := [(0, 1)] } = ([(0, 2)], false) := by
